@@ -90,7 +90,23 @@ def run(ctx):
             would_write = bool(free['stdout'])
             if would_write and rc == 0: V('a run whose output cannot be written exits with a non-zero status', 'exit 0 with stdout %s' % mode, 'non-zero')
             if (rc == 0) != (m_exit == 0) and would_write: mism.append({'case': common.describe(c), 'impl': rc, 'model': m_exit, 'why': 'exit status differs (%s stdout)' % mode})
-    cov = {'evaluations': len(cases), 'distinct_nontrivial': len(set((tuple(lib.cfg_args(c['cfg'])), c['inputs'][0]['data'], md) for c, md, _ in jobs)),
+    # input that cannot be opened: a path that does not exist, named directly or as a dangling link inside a directory argument:
+    # the input failed, so the run exits non-zero with a message, under every policy
+    import tempfile, shutil
+    d = tempfile.mkdtemp(dir=os.path.join(lib.BUILD, 'tmp')) if os.path.isdir(os.path.join(lib.BUILD, 'tmp')) else tempfile.mkdtemp()
+    try:
+        os.makedirs(os.path.join(d, 'dir')); open(os.path.join(d, 'dir', 'a.json'), 'w').write('1 2\n'); os.symlink(os.path.join(d, 'nowhere.json'), os.path.join(d, 'dir', 'b_dangling.json'))
+        open(os.path.join(d, 'good.json'), 'w').write('3\n')
+        for pol in ('ignore', 'stdout', 'stderr', 'panic'):
+            for what, paths in (('a path that does not exist', [os.path.join(d, 'missing.json')]), ('a good file followed by a path that does not exist', [os.path.join(d, 'good.json'), os.path.join(d, 'missing.json')]),
+                                ('a dangling symbolic link inside a directory argument', [os.path.join(d, 'dir')])):
+                p = subprocess.run([lib.JAWK_BIN, '--on-error=' + pol, '--'] + paths, stdin=subprocess.DEVNULL, stdout=subprocess.PIPE, stderr=subprocess.PIPE, timeout=30)
+                checked += 1
+                if p.returncode == 0 or not p.stderr.strip():
+                    violations.append({'property': 'C20', 'relation': 'input that cannot be opened (%s): non-zero status and a message on standard error' % what, 'args': ['--on-error=' + pol, '--'] + [os.path.relpath(x, d) for x in paths],
+                                       'stdin_hex': '', 'stdout_mode': 'pipe', 'unopenable': what, 'observed': 'exit %d, stderr %r' % (p.returncode, p.stderr[:120]), 'expected': 'non-zero, message'})
+    finally: shutil.rmtree(d, ignore_errors=True)
+    cov = {'evaluations': len(cases) + 12, 'distinct_nontrivial': len(set((tuple(lib.cfg_args(c['cfg'])), c['inputs'][0]['data'], md) for c, md, _ in jobs)),
            'rule': 'the real binary as a child process on generated clean/noisy inputs (some cut off inside their last value) x the four --on-error policies x valid and invalid configurations x stdout a pipe, a closed pipe, or /dev/full; row separators with and without a line break',
            'samples': [dict(common.describe(c), stdout_mode=md) for c, md, _ in jobs[:2]],
            'traces_validated_against_impl': len(cases) - len(mism), 'model_mismatches': len(mism), 'direct_relations_checked': checked}
@@ -98,5 +114,15 @@ def run(ctx):
     return {'coverage': cov, 'violations': violations, 'broken': broken}
 
 def replay(ctx, r):
+    if r.get('unopenable'):
+        import tempfile, shutil
+        d = tempfile.mkdtemp()
+        try:
+            os.makedirs(os.path.join(d, 'dir')); open(os.path.join(d, 'dir', 'a.json'), 'w').write('1 2\n'); os.symlink(os.path.join(d, 'nowhere.json'), os.path.join(d, 'dir', 'b_dangling.json'))
+            open(os.path.join(d, 'good.json'), 'w').write('3\n')
+            args = [a if a.startswith('-') else os.path.join(d, a) for a in r['args']]
+            p = subprocess.run([lib.JAWK_BIN] + args, stdin=subprocess.DEVNULL, stdout=subprocess.PIPE, stderr=subprocess.PIPE, timeout=30)
+            return {'observed': {'exit': p.returncode, 'stderr': p.stderr.decode('utf8', 'replace')[:200]}, 'fails': p.returncode == 0 or not p.stderr.strip()}
+        finally: shutil.rmtree(d, ignore_errors=True)
     rc, out, err = run_bin(r['args'], bytes.fromhex(r['stdin_hex']), r.get('stdout_mode', 'pipe'))
     return {'observed': {'exit': rc, 'stdout': (out or b'').decode('utf8', 'replace')[:300], 'stderr': err.decode('utf8', 'replace')[:300]}, 'fails': True}
